@@ -2,18 +2,9 @@
   DWVW encoder state: `last_delta_width` stays inside [0, bit_width) and `last_sample` inside the bit_width-bit range,
   for every sample sequence; quantisation of the caller's 32-bit value.
 -/
-import SfProofs.DwvwEnc
+import SfProofs.DwvwDec
 namespace Sf.Dwvw.Proofs
 open Sf Sf.Dwvw
-
-/-- `ptr >> (32 - bit_width)` of a 32-bit value is a bit_width-bit value -/
-theorem asr_range (c : Cfg) (hw : c.ok) (p : Int) (hp : -2 ^ 31 ≤ p ∧ p < 2 ^ 31) :
-    -c.maxDelta ≤ asr p c.shift ∧ asr p c.shift < c.maxDelta := by
-  obtain ⟨w⟩ := c
-  rcases hw with h | h | h <;> simp only at h <;> subst h <;>
-  · simp only [Cfg.maxDelta, Cfg.shift, asr]
-    norm_num at hp ⊢
-    omega
 
 /-- the state the encoder is in: width in [0, w), sample in the w-bit range -/
 def stOk (c : Cfg) (ldw last : Int) : Prop := (0 ≤ ldw ∧ ldw < c.w) ∧ (-c.maxDelta ≤ last ∧ last < c.maxDelta)
